@@ -57,14 +57,17 @@ enum E {
 
 type Log = Arc<Mutex<Vec<E>>>;
 
-async fn participant(sd: Arc<Mutex<Shutdown>>, log: Log, i: usize, start_delay: usize, work: usize) {
+async fn participant(sd: Arc<Mutex<Shutdown>>, log: Log, i: usize, start_delay: usize, work: usize, pre_wait: usize) {
     for _ in 0..start_delay { yield_now().await; }
     let (mut n, guard) = {
         let s = match sd.try_lock() { Ok(s) => s, Err(_) => { log.lock().unwrap().push(E::LateRegistrantBlocked(i)); return; } };
         (shutdown_notification(&s), shutdown_guard(&s))
     };
     log.lock().unwrap().push(E::Registered(i, guard.is_some()));
-    let w = async { for _ in 0..work { yield_now().await; } };
+    // a registered participant may do other things before it first waits for the notification
+    for _ in 0..pre_wait { yield_now().await; }
+    // work == usize::MAX: a participant that only ever ends by being notified
+    let w = async { if work == usize::MAX { futures::future::pending::<()>().await } else { for _ in 0..work { yield_now().await; } } };
     let notified = async { n.wait().await };
     futures::pin_mut!(w);
     futures::pin_mut!(notified);
@@ -94,7 +97,7 @@ async fn submit_and_wait(sd: Arc<Mutex<Shutdown>>, log: Log, delay: usize, wait_
 }
 
 struct Scenario {
-    participants: Vec<(usize, usize)>, // (start delay, work length)
+    participants: Vec<(usize, usize, usize)>, // (start delay, work length, steps between registration and the first wait)
     submit_delay: usize,
     wait_delay: usize,
 }
@@ -104,8 +107,8 @@ fn run_schedule(sc: &Scenario, tape: &[usize]) -> (Vec<E>, Vec<usize>, bool) {
     let sd = Shutdown::new();
     let log: Log = Default::default();
     let mut tasks: Vec<Option<Pin<Box<dyn Future<Output = ()>>>>> = vec![];
-    for (i, (d, w)) in sc.participants.iter().enumerate() {
-        tasks.push(Some(Box::pin(participant(sd.clone(), log.clone(), i, *d, *w))));
+    for (i, (d, w, pw)) in sc.participants.iter().enumerate() {
+        tasks.push(Some(Box::pin(participant(sd.clone(), log.clone(), i, *d, *w, *pw))));
     }
     tasks.push(Some(Box::pin(submit_and_wait(sd.clone(), log.clone(), sc.submit_delay, sc.wait_delay))));
     let ready = Arc::new(Mutex::new(vec![true; tasks.len()]));
@@ -165,7 +168,15 @@ fn judge_schedule(sc: &Scenario, log: &[E]) -> Vec<String> {
         let all_finished = (0..sc.participants.len()).all(|i| pos(&E::Finished(i)).is_some() || log.iter().any(|e| matches!(e, E::LateRegistrantBlocked(j) if *j == i)) );
         let blocked = log.iter().any(|e| matches!(e, E::LateRegistrantBlocked(_)));
         if all_finished && !blocked { bad.push("completion() did not return although every registered participant finished".into()); }
-        else if !all_finished && !blocked { bad.push("deadlock: a participant never finished and completion() never returned".into()); }
+        else if !all_finished && !blocked {
+            // a participant that registered only after the submission is outside the statement: nobody owes it a notification,
+            // and if it never ends by itself completion() rightly keeps waiting for its guard
+            let late_unfinished = (0..sc.participants.len()).any(|i| {
+                let reg = log.iter().position(|e| matches!(e, E::Registered(j, _) if *j == i));
+                pos(&E::Finished(i)).is_none() && matches!((reg, submitted), (Some(r), Some(s)) if r > s)
+            });
+            if !late_unfinished { bad.push("deadlock: a participant never finished and completion() never returned".into()); }
+        }
     }
     bad
 }
@@ -178,13 +189,13 @@ fn executor_part(rep: &Arc<Reporter>, args: &Args) {
     let cap = args.qt(150_000u64, 12_000_000u64);
     let mut scenarios = vec![];
     for p in 1..=2usize {
-        for sd in 0..=2usize { for wd in 0..=1usize { for w in [0usize, 1, 3] { for st in [0usize, 1] {
-            scenarios.push(Scenario { participants: (0..p).map(|i| (if i == 0 { 0 } else { st }, w + i)).collect(), submit_delay: sd, wait_delay: wd });
-        } } } }
+        for sd in 0..=2usize { for wd in 0..=1usize { for w in [0usize, 1, 3, usize::MAX] { for st in [0usize, 1] { for pw in [0usize, 1, 2] {
+            scenarios.push(Scenario { participants: (0..p).map(|i| (if i == 0 { 0 } else { st }, if w == usize::MAX { w } else { w + i }, if i == 0 { pw } else { 0 })).collect(), submit_delay: sd, wait_delay: wd });
+        } } } } }
     }
     // three participants, bounded depth by the global cap
-    scenarios.push(Scenario { participants: vec![(0, 1), (0, 2), (1, 0)], submit_delay: 1, wait_delay: 0 });
-    scenarios.push(Scenario { participants: vec![(0, 0), (1, 3), (2, 1)], submit_delay: 0, wait_delay: 1 });
+    scenarios.push(Scenario { participants: vec![(0, 1, 1), (0, 2, 0), (1, 0, 2)], submit_delay: 1, wait_delay: 0 });
+    scenarios.push(Scenario { participants: vec![(0, 0, 0), (1, 3, 1), (2, 1, 0)], submit_delay: 0, wait_delay: 1 });
     let per_scenario = cap / scenarios.len() as u64;
     for (si, sc) in scenarios.iter().enumerate() {
         let mut tape: Vec<usize> = vec![];
@@ -229,7 +240,7 @@ fn executor_part(rep: &Arc<Reporter>, args: &Args) {
     let mut walk_bad: BTreeMap<String, Value> = BTreeMap::new();
     for _ in 0..walks {
         let p = r.range(3, 8) as usize;
-        let sc = Scenario { participants: (0..p).map(|_| (r.below(3) as usize, r.below(5) as usize)).collect(), submit_delay: r.below(6) as usize, wait_delay: r.below(3) as usize };
+        let sc = Scenario { participants: (0..p).map(|_| (r.below(3) as usize, if r.chance(1, 4) { usize::MAX } else { r.below(5) as usize }, r.below(3) as usize)).collect(), submit_delay: r.below(6) as usize, wait_delay: r.below(3) as usize };
         let tape: Vec<usize> = (0..200).map(|_| r.below(8) as usize).collect();
         let (log, _, _) = run_schedule(&sc, &tape);
         for b in judge_schedule(&sc, &log) { walk_bad.entry(b).or_insert_with(|| json!({"kind":"shutdown-walk","participants":sc.participants,"events":log.iter().map(|e| format!("{:?}", e)).collect::<Vec<_>>()})); }
@@ -353,8 +364,15 @@ fn handlers_part(rep: &Arc<Reporter>, args: &Args) {
                 }
             }
             for (proto, saw_end, graceful, j) in clients {
-                let _ = tokio::time::timeout(Duration::from_secs(3), async { while !saw_end.load(Ordering::SeqCst) { tokio::time::sleep(Duration::from_millis(2)).await; } }).await;
-                if !saw_end.load(Ordering::SeqCst) { rep.violation(&format!("{:?} client never saw its session end after shutdown", proto), w.clone()); }
+                // generous wall-clock patience (the handlers have finished: the end is on its way); if it still is not seen
+                // the verdict depends on whether the machine was able to run our tasks at all
+                let t0 = std::time::Instant::now();
+                let _ = tokio::time::timeout(Duration::from_secs(20), async { while !saw_end.load(Ordering::SeqCst) { tokio::time::sleep(Duration::from_millis(2)).await; } }).await;
+                let lag = { let t = std::time::Instant::now(); tokio::time::sleep(Duration::from_millis(20)).await; t.elapsed().as_millis() as u64 };
+                if !saw_end.load(Ordering::SeqCst) {
+                    if lag > 500 { rep.inconclusive("handlers: client did not see its session end within 20 s on a machine with > 0.5 s scheduling lag"); }
+                    else { let mut w2 = w.clone(); w2["waited_ms"] = json!(t0.elapsed().as_millis() as u64); rep.violation(&format!("{:?} client never saw its session end after shutdown", proto), w2); }
+                }
                 else if !graceful.load(Ordering::SeqCst) { rep.violation(&format!("{:?} session ended abruptly instead of gracefully (GOAWAY / flush+close)", proto), w.clone()); }
                 else { rep.tally(&format!("handlers: {:?} client saw a graceful end", proto), 1); }
                 j.abort();
@@ -377,7 +395,7 @@ pub fn run(args: &Args) -> i32 {
         args,
         "exploration",
         "(a) deterministic executor over the real Shutdown: depth-first enumeration of every scheduling choice for scenarios with 1-2 participants (start \
-         delays, work lengths 0-4, submit delay 0-2, wait delay 0-1) and two 3-participant scenarios up to a schedule cap, plus seeded random walks with 3-8 \
+         delays, work lengths 0-4 or endless (only the notification ends it), 0-2 steps between registration and the first wait, submit delay 0-2, wait delay 0-1) and two 3-participant scenarios up to a schedule cap, plus seeded random walks with 3-8 \
          participants; oracle over the event log (registered-before-submit => notified unless own work ended first; Completed never before a registered \
          participant's Finished; no hang). (b) real Tunnel / ping / speedtest handlers on in-memory h1/h2 sessions on an 8-thread runtime: graceful end seen by \
          each client, completion returns after all handlers. distinct_nontrivial = distinct event orders / rounds.",
@@ -385,8 +403,10 @@ pub fn run(args: &Args) -> i32 {
     rep.assume("participants that register while completion() holds the Shutdown lock are outside the statement (recorded, not judged)");
     rep.assume("the executor polls one ready task per step; tokio's broadcast/mpsc channels only need wakers");
     rep.assume("handlers part: shutdown is submitted only after Shutdown itself reports one notification handle and one completion guard per spawned session (hook Shutdown::verif_participants); a round where that does not happen within 5 s is inconclusive");
+    if args.has_flag("--only-h3") { crate::props::h3_l2::c19_h3(&rep, args); return rep.finish(); }
     executor_part(&rep, args);
     handlers_part(&rep, args);
+    crate::props::h3_l2::c19_h3(&rep, args);
     crate::props::c19_bin::run_bin(&rep, args);
     rep.finish()
 }
